@@ -861,6 +861,15 @@ def sim_case(seed, tier):
         script.append({"t": rng.choice([0.5, 2.0]), "side": "client", "op": "ping", "uid": 1})
     if rng.random() < 0.2:
         script.append({"t": rng.choice([1.0, 3.0]), "side": rng.choice(["client", "server"]), "op": "key_update"})
+    # the client starts over after a Retry / Version Negotiation packet from the server's front-end: the packets of
+    # its first attempt must leave the in-flight accounting
+    r2 = random.Random("c08b-frontend/%d" % seed).random()
+    if r2 < 0.2:
+        opts["retry"] = True
+        profile += "+retry"
+    elif r2 < 0.35:
+        opts.update(frontend_vn=True, versions_client=["v2", "v1"], versions_server=["v1"])
+        profile += "+vn"
     return opts, fp, script, {"profile": profile, "up": up, "down": down}
 
 
